@@ -15,10 +15,12 @@ package snap
 
 import (
 	"bytes"
+	"flag"
 	"fmt"
 	"math/big"
 	"runtime"
 	"sort"
+	"strconv"
 	"strings"
 	"sync"
 	"sync/atomic"
@@ -597,7 +599,7 @@ func (p *c47Peer) onAccounts(t *testPeer, id uint64, root, origin, limit common.
 		proofs = proof.List()
 	}
 	p.mu.Unlock()
-	if len(keys) == 0 && len(proofs) == 0 {
+	if len(keys) == 0 && len(proofs) == 0 && bh <= bhDelay && c47DebugLines.Add(1) <= 10 {
 		fmt.Printf("C47-DEBUG %s: unintended empty account reply bh=%s origin=%x limit=%x cap=%d\n", t.id, c47BhNames[bh], origin, limit, cap)
 	}
 	err := t.remote.OnAccounts(t, id, keys, vals, proofs)
@@ -697,7 +699,7 @@ func (p *c47Peer) onStorage(t *testPeer, id uint64, root common.Hash, accounts [
 		}
 	}
 	p.mu.Unlock()
-	if len(hashes) == 0 && len(proofs) == 0 {
+	if len(hashes) == 0 && len(proofs) == 0 && bh <= bhDelay && c47DebugLines.Add(1) <= 10 {
 		fmt.Printf("C47-DEBUG %s: unintended empty storage reply bh=%s accounts=%x origin=%x limit=%x max=%d\n", t.id, c47BhNames[bh], accounts, origin, limit, max)
 	}
 	err := t.remote.OnStorage(t, id, hashes, slots, proofs)
@@ -746,7 +748,7 @@ func (p *c47Peer) onCodes(t *testPeer, id uint64, hashes []common.Hash, max int)
 		codes = append(codes, []byte{0xde, 0xad, byte(r)})
 		tampered = true
 	}
-	if len(codes) == 0 {
+	if len(codes) == 0 && c47DebugLines.Add(1) <= 10 {
 		fmt.Printf("C47-DEBUG %s: unintended empty code reply bh=%s hashes=%x\n", t.id, c47BhNames[bh], hashes)
 	}
 	err := t.remote.OnByteCodes(t, id, codes)
@@ -778,14 +780,16 @@ func (p *c47Peer) onTrieNodes(t *testPeer, id uint64, root common.Hash, paths []
 			tr := t.storageTries[common.BytesToHash(pathset[0])]
 			if tr == nil {
 				a := p.run.state.byHash[common.BytesToHash(pathset[0])]
-				fmt.Printf("C47-DEBUG no storage trie for %x (account known=%v hasStorage=%v)\n", pathset[0], a != nil, a != nil && a.st != nil)
+				if c47DebugLines.Add(1) <= 10 {
+					fmt.Printf("C47-DEBUG no storage trie for %x (account known=%v hasStorage=%v)\n", pathset[0], a != nil, a != nil && a.st != nil)
+				}
 				continue
 			}
 			for _, path := range pathset[1:] {
 				blob, _, err := tr.GetNode(path)
 				if err == nil {
 					nodes = append(nodes, blob)
-				} else {
+				} else if c47DebugLines.Add(1) <= 10 {
 					fmt.Printf("C47-DEBUG GetNode(%x,%x): %v\n", pathset[0], path, err)
 				}
 			}
@@ -817,7 +821,7 @@ func (p *c47Peer) onTrieNodes(t *testPeer, id uint64, root common.Hash, paths []
 			tampered = true
 		}
 	}
-	if len(nodes) == 0 {
+	if len(nodes) == 0 && c47DebugLines.Add(1) <= 10 {
 		fmt.Printf("C47-DEBUG %s: unintended empty trie node reply bh=%s paths=%x\n", t.id, c47BhNames[bh], paths)
 	}
 	err := t.remote.OnTrieNodes(t, id, nodes)
@@ -1078,7 +1082,7 @@ func c47ScriptString(s [4][]int) string {
 
 var c47Stalls, c47Cases atomic.Int64
 var c47Slow atomic.Value
-var c47StackDumps atomic.Int64
+var c47StackDumps, c47DebugLines atomic.Int64
 
 func TestVerifC47SyncV1(t *testing.T) {
 	st := vs.New("C47", t)
@@ -1298,4 +1302,11 @@ func TestVerifC47SyncV1(t *testing.T) {
 				"served": run.served.Load(), "rejected": run.rejected.Load(), "chunkedStorageRequests": run.chunked.Load(), "healRequests": run.healReqs.Load()}
 		})
 	})
+	// rapid ends a run early (and reports success) when the test deadline comes close;
+	// a budget eaten by stalls must not look like a full run
+	if f := flag.Lookup("rapid.checks"); f != nil && !t.Failed() {
+		if want, _ := strconv.Atoi(f.Value.String()); int(c47Cases.Load()) < want {
+			t.Fatalf("VERIF-INCONCLUSIVE: only %d of %d syncs were run before the deadline (%d stalled)", c47Cases.Load(), want, c47Stalls.Load())
+		}
+	}
 }
